@@ -61,6 +61,9 @@ CHECKS = {
  "C03": dict(cat="exploration", tech="virtual gossip network with a schedule enumerator/sampler over real nodes (real validators, handlers, middleware, key share handler on pgmem); oracle at quiescence and at every delivery",
    text="n real nodes of one flavour (core, Gnosis, Shutter-service) exchange the bytes their code produces; for n=3,t=2 every triggered subset and every causally feasible per-node order of {own trigger, arrival of each shares message (kept or lost, <= n-t lost)} x keys-message placement is executed, plus sampled schedules for n<=5 with duplicates and two identities: every honest message must be accepted by honest peers (and Gnosis keys messages by the access node), every stored key must be the correct one, and whenever a keyper derived the key every node must store it at quiescence. Two liveness gaps under message loss are recorded as known findings.",
    note="Go toolchain; pgmem (Snapshot/Restore per schedule); gossipnet (libp2p replaced by direct delivery); fixtures.EonKeys; verif hooks", ref="§3 C03"),
+ "C08": dict(cat="fault_enumeration", tech="enumeration of process crashes at every database round trip (before the request / after the commit) of a complete real DKG run; OnCommit sync-position monitor; chain-side transaction log checks; twin comparison with the crash-free run",
+   text="Three keypers made of repository code only (SyncAppWithDB, handleOnChainChanges, SendShutterMessages with the real RPCMessageSender) run a complete DKG over the real shuttermint app; for each keyper a crash is injected before each of its ~410 database round trips and after each of its ~30 committing ones, followed by a restart on the same database (thorough: pairs of crashes). Checked: sync position advances by exactly one block per commit, never two different commitments per eon, every poly eval on chain verifies against the published commitment, outbox drained, same DKG outcome, same final database state and same order of accepted messages as the crash-free twin.",
+   note="Go toolchain; pgmem fault plans (committed => durable; frozen connections after the crash point); smchain (harness-chosen block boundaries); dkgsim; keyper verif hooks", ref="§3 C08"),
 }
 
 NOT_APPLICABLE = {
